@@ -86,6 +86,8 @@ def check(case):
         )
 
     fit_batch(b1, True)
+    if case.get("predict_between"):
+        est.predict(X[b1])  # inference between two training steps: the next step trains in training mode again
     if case.get("alpha2") is not None:
         # alpha re-tuned between steps (as the fine-tuning example does from a callback): the next step must use
         # the estimator's *current* alpha
@@ -219,6 +221,8 @@ def check(case):
         tags.append("adv_hidden")
     if case["pred"]["kind"] == "module" or case["adv"]["kind"] == "module":
         tags.append("module")
+    if case.get("predict_between") and "mode_scale" in case["pred"]["acts"]:
+        tags.append("mode_dependent_layer_after_predict")
     if zero_any:
         tags.append("zero_dLA_tensor")
     if zero_branch:
@@ -268,6 +272,9 @@ def _cases(draw):
         adv = {"kind": "module", "hidden": [draw(st.integers(1, 4))], "acts": ["relu"],
                "seed": draw(st.integers(0, 10**6)), "bias": True, "dead_first": True}
 
+    predict_between = draw(st.booleans())
+    if pred["kind"] == "module" and pred["hidden"] and draw(st.booleans()):
+        pred["acts"][0] = "mode_scale"  # a user module with a mode-dependent layer (cf. dropout / batch normalisation)
     saturate = None
     if ytype == "binary" and zero_mode == "none" and draw(st.integers(0, 3)) == 0:
         pred["hidden"], pred["acts"] = [], []  # logistic-regression predictor: one row is moved to a logit of -17.5..-23.5
@@ -292,6 +299,7 @@ def _cases(draw):
         "pass_classes": draw(st.booleans()),
         "classes_every_call": draw(st.booleans()),  # the scikit-learn loop idiom: partial_fit(..., classes=...) in every call
         "saturate": saturate,
+        "predict_between": predict_between,
     }
 
 
